@@ -311,6 +311,7 @@ func (cl *Client) ResendInflightMessages(force bool) error {
 			tk.FixedHeader.Dup = true // [MQTT-3.3.1-1] [MQTT-3.3.1-3]
 		}
 
+		tk.Expiry = heldExpiry(tk.Expiry)
 		cl.ops.hooks.OnQosPublish(cl, tk, tk.Created, 0)
 		err := cl.WritePacket(tk)
 		if err != nil {
@@ -342,7 +343,8 @@ func (cl *Client) ClearInflights() {
 func (cl *Client) ClearExpiredInflights(now, maximumExpiry int64) []uint16 {
 	deleted := []uint16{}
 	for _, tk := range cl.State.Inflight.GetAll(false) {
-		expired := tk.ProtocolVersion == 5 && tk.Expiry > 0 && tk.Expiry < now // [MQTT-3.3.2-5]
+		expiry := heldExpiry(tk.Expiry)
+		expired := tk.ProtocolVersion == 5 && expiry > 0 && expiry < now // [MQTT-3.3.2-5]
 
 		// If the maximum message expiry interval is set (greater than 0), and the message
 		// retention period exceeds the maximum expiry, the message will be forcibly removed.
